@@ -123,24 +123,3 @@ Proof.
   - constructor; [split; [right; now left|cbn; discriminate]|constructor].
   - intros f [<-|[<-|[]]]; cbn; lia.
 Qed.
-
-(** ** what the faithful model of the resume validation refutes (both confirmed
-    on the implementation by the harness; see known_findings.d/C16.json) *)
-
-(** "a stopped or killed follower resumes from its sidecar TXID" is false when
-    the follower is ahead of the newest snapshot: sidecar 3 (a state the
-    follower legitimately reached by applying 3..3 after snapshot 1..2) is refused *)
-Lemma resume_from_any_reached_txid_refuted :
-  exists (snaps : list (N * N)) (sidecar : N),
-    sidecar <> 0 /\ (forall s, In s snaps -> fst s <= sidecar) /\
-    resume_check true sidecar snaps = RefuseAhead.
-Proof.
-  exists [(1, 2)], 3. split; [discriminate|]. split; [|reflexivity].
-  intros s [<-|[]]. cbn. lia.
-Qed.
-
-(** a database file without sidecar (the state between the rename of the
-    initial restore and the first WriteTXIDFile) is never resumable *)
-Lemma resume_after_kill_before_first_sidecar_refuted :
-  forall snaps, resume_check true 0 snaps = RefuseNoTxid.
-Proof. reflexivity. Qed.
